@@ -9,7 +9,8 @@
     a plain handle, flush with no handle outstanding).  No bound on capacity,
     keys, number of handles or length of the history. *)
 From Coq Require Import NArith List Bool Arith Permutation.
-From KdV Require Import Cache.CacheList Cache.CacheSpec Cache.CacheMain Cache.CacheJudge.
+From KdV Require Import Cache.CacheList Cache.CacheSpec Cache.CacheMain Cache.CacheJudge
+  Cache.CacheRing.
 Import ListNotations.
 
 (** a fresh cache of any positive capacity satisfies the invariant *)
@@ -136,6 +137,31 @@ Theorem C06_counters_add_up_ring_wellformed_partial : forall s, Inv s ->
   (forall e, In e (ring s ++ infl s) <-> e < 2 * cap s).
 Proof. exact counters_add_up. Qed.
 Print Assumptions C06_counters_add_up_ring_wellformed_partial.
+
+(** pointer level, primitives only (hence [_partial]): on a well-formed
+    circular doubly linked list ([linked nx pv l]: [l] in [next] order, any
+    rotation, no repetition, every element points to its cyclic successor and
+    predecessor) [remove_entry], [add_entry_after], [add_entry_before]
+    (transcribed statement by statement over the [next]/[prev] functions)
+    perform exactly the list edits the list-level model assumes and keep the
+    list well-formed.  The composite operations' [split] bookkeeping is not
+    proved at this level. *)
+Theorem C06_ring_primitives_partial : forall nx pv l1 x l2,
+  linked nx pv (l1 ++ x :: l2) ->
+  (l1 ++ l2 <> [] ->
+   linked (fst (remove_entry nx pv x)) (snd (remove_entry nx pv x)) (l1 ++ l2)) /\
+  (forall e, ~ In e (l1 ++ x :: l2) ->
+   linked (fst (add_entry_after nx pv e x)) (snd (add_entry_after nx pv e x))
+          (l1 ++ x :: e :: l2) /\
+   linked (fst (add_entry_before nx pv e x)) (snd (add_entry_before nx pv e x))
+          (l1 ++ e :: x :: l2)).
+Proof.
+  exact (fun nx pv l1 x l2 H =>
+    conj (remove_entry_linked nx pv l1 x l2 H)
+         (fun e Hn => conj (add_entry_after_linked nx pv l1 x l2 e H Hn)
+                           (add_entry_before_linked nx pv l1 x l2 e H Hn))).
+Qed.
+Print Assumptions C06_ring_primitives_partial.
 
 (** the pinned (unrepaired) reclaim_data does not satisfy the property: two
     legal histories at capacity 2 on which the faithful model of the pinned
